@@ -13,10 +13,14 @@ ROOT = lib.ROOT
 INT_RANGES = {'byte': (-128, 127), 'ubyte': (0, 255), 'short': (-32768, 32767), 'ushort': (0, 65535),
               'int': (-2 ** 31, 2 ** 31 - 1), 'uint': (0, 2 ** 32 - 1), 'long': (-2 ** 63, 2 ** 63 - 1), 'ulong': (0, 2 ** 64 - 1)}
 ENUMS = {'Color': {'base': 'byte', 'syms': {'Red': 1, 'Green': 2, 'Blue': 7}, 'flags': False},
-         'Bits': {'base': 'ushort', 'syms': {'A': 1, 'B': 2, 'C': 4, 'H': 32768}, 'flags': True}}
+         'Bits': {'base': 'ushort', 'syms': {'A': 1, 'B': 2, 'C': 4, 'H': 32768}, 'flags': True},
+         'Neg': {'base': 'byte', 'syms': {'Min': -128, 'Zero': 0, 'Max': 127}, 'flags': False},
+         'Full': {'base': 'ubyte', 'syms': {'F%d' % i: 1 << i for i in range(8)}, 'flags': True}}
 STRUCTS = {
     'Pt': [('x', 'short'), ('y', 'short')],
     'Big': [('l', 'long'), ('u', 'ulong')],
+    'Lim': [('b', 'byte'), ('s', 'short'), ('i', 'int'), ('l', 'long'), ('ab', ('arr', 'byte', 2)), ('as', ('arr', 'short', 2)), ('ai', ('arr', 'int', 2)),
+            ('al', ('arr', 'long', 2)), ('e', 'Neg'), ('ae', ('arr', 'Neg', 2))],
     'Fix': [('a', ('arr', 'int', 3)), ('name', ('chararr', 6)), ('p', ('arr', 'Pt', 2)), ('e', ('arr', 'Color', 2)),
             ('d', 'double'), ('u', 'ubyte')],
 }
@@ -28,7 +32,9 @@ TABLES = {
     'Node': [('name', 'string', None), ('kids', ('uvec', 'Tree'), None), ('single', ('union', 'Tree'), None), ('n', 'int', 0)],
     'Req': [('a', 'string', None), ('b', ('vec', 'int'), None), ('c', 'Leaf', None), ('d', 'int', 0)],
     'Nums': [('l', 'long', 0), ('u', 'ulong', 0), ('vl', ('vec', 'long'), None), ('vu', ('vec', 'ulong'), None), ('big', 'Big', None),
-             ('vbig', ('vec', 'Big'), None), ('i', 'int', 0), ('w', 'uint', 0)],
+             ('vbig', ('vec', 'Big'), None), ('i', 'int', 0), ('w', 'uint', 0), ('b8', 'byte', 0), ('s16', 'short', 0), ('vb8', ('vec', 'byte'), None),
+             ('vs16', ('vec', 'short'), None), ('vi32', ('vec', 'int'), None), ('lim', 'Lim', None), ('vlim', ('vec', 'Lim'), None), ('e', 'Neg', 0),
+             ('ve', ('vec', 'Neg'), None), ('full', 'Full', 0), ('vfull', ('vec', 'Full'), None)],
     'Sub': [('id', 'uint', 0), ('tag', 'string', None), ('pt', 'Pt', None)],
     'Root': [('b', 'bool', False), ('i8', 'byte', -3), ('u8', 'ubyte', 0), ('i16', 'short', 0), ('u16', 'ushort', 500),
              ('i32', 'int', 0), ('u32', 'uint', 0), ('i64', 'long', 0), ('u64', 'ulong', 0), ('f32', 'float', 0.0),
@@ -77,6 +83,7 @@ class Gen:
         if t == 'bool': return r.random() < 0.5
         if t in INT_RANGES:
             lo, hi = INT_RANGES[t]
+            if r.random() < 0.3: return r.choice([lo, lo + 1, hi, hi - 1, 0, -1 if lo < 0 else 1])
             c = [x for x in BOUNDARY_INTS(lo, hi) if lo <= x <= hi]
             return r.choice(c) if r.random() < 0.6 else r.randint(lo, hi)
         if t == 'float':
@@ -85,8 +92,10 @@ class Gen:
             return r.choice([0.0, 2.5, -2.5, 0.1, 1e100, -1e-100, 3.141592653589793, 1.7976931348623157e308, 5e-324, 123456789.125, -0.0,
                              r.uniform(-1e6, 1e6), r.random()])
         e = ENUMS[t]
+        lo, hi = INT_RANGES[e['base']]
         if e['flags']:
-            return r.choice([0, 1, 2, 3, 4, 7, 32768, 32769, 8, 65535, r.randint(0, 65535)]) if r.random() < 0.8 else r.choice(list(e['syms'].values()))
+            v = r.choice([0, 0, 1, 2, 3, 4, 7, 32768, 32769, 8, 65535, 255, 128, r.randint(0, 65535)]) if r.random() < 0.8 else r.choice(list(e['syms'].values()))
+            return v & hi
         return r.choice(list(e['syms'].values())) if r.random() < 0.85 else r.choice([0, 3, -1, 127, -128])
 
     def struct(self, name):
